@@ -10,122 +10,142 @@ Definition rank1 (dims : list Z) : bool := match dims with [_] => true | _ => fa
 Definition supported (ak : akind) (dims : list Z) : Prop :=
   match ak, dims with AMember, _ :: _ :: _ :: _ => False | _, _ => True end.
 
-(* the indices as the site sees them *)
-Definition seen (ak : akind) (m : rw) (dims idxs : list Z) : list Z :=
-  map (conv (narrows ak (rank1 dims) m)) idxs.
-
 Lemma row_major_1 n i : row_major [n] [i] = i.
 Proof. cbn. lia. Qed.
 
-Lemma resolve_inl_iff_l ak m dims idxs k : supported ak dims ->
-  (resolve ak m dims (size dims) idxs = inl k <->
-   in_range dims (seen ak m dims idxs) /\ k = row_major dims (seen ak m dims idxs)).
-Proof.
-  intros Hs. unfold seen.
-  assert (ND : forall b, rank1 dims = false ->
-     ((if negb (Nat.eqb (List.length dims) (List.length idxs)) then inr EOther else
-       match calc_flat dims (map (conv b) idxs) with
+(* the generic N-D branch of every site *)
+Lemma nd_branch_iff b dims idxs k : dims_fit dims ->
+  (match conv_all b idxs with
+   | None => inr EBounds
+   | Some idxs' =>
+       if negb (Nat.eqb (List.length dims) (List.length idxs')) then inr EOther else
+       match calc_flat dims idxs' with
        | Some f => if f <? size dims then inl f else inr EBounds
-       | None => inr EBounds end) = inl k <->
-      in_range dims (map (conv b) idxs) /\ k = row_major dims (map (conv b) idxs))).
-  { intros b _. destruct (Nat.eqb (List.length dims) (List.length idxs)) eqn:E; cbn [negb].
-    - destruct (calc_flat dims (map (conv b) idxs)) as [f|] eqn:F.
-      + apply calc_flat_some_iff_l in F. destruct F as [Hin ->].
+       | None => inr EBounds
+       end
+   end = inl k <-> in_range dims idxs /\ k = row_major dims idxs).
+Proof.
+  intros Hd. destruct (conv_all b idxs) as [l|] eqn:C.
+  - apply conv_all_some in C. subst l.
+    destruct (Nat.eqb (List.length dims) (List.length idxs)) eqn:E; cbn [negb].
+    + destruct (calc_flat dims idxs) as [f|] eqn:F.
+      * apply calc_flat_some_iff_l in F. destruct F as [Hin ->].
         pose proof (row_major_bounds _ _ Hin) as Hb.
-        destruct (Z.ltb_spec (row_major dims (map (conv b) idxs)) (size dims)); [|lia].
+        destruct (Z.ltb_spec (row_major dims idxs) (size dims)) as [A|A]; [|lia].
         split; [intros G; split; [exact Hin|congruence]|intros [_ ->]; reflexivity].
-      + apply calc_flat_none_iff in F. split; [discriminate|tauto].
-    - apply Nat.eqb_neq in E. split; [discriminate|]. intros [H _].
-      apply in_range_length in H. rewrite map_length in H. contradiction. }
-  destruct dims as [|n [|n2 ds]].
-  - (* rank 0 *) cbn [resolve]. destruct ak, m; apply ND; reflexivity.
-  - (* rank 1 *) cbn [resolve rank1].
-    destruct idxs as [|i [|i2 is_]]; cbn [map in_range]; try (split; [discriminate|tauto]).
-    set (i' := conv (narrows ak true m) i).
-    rewrite row_major_1.
-    destruct (Z.ltb_spec i' 0), (Z.leb_spec n i'); cbn [orb];
-      try (split; [discriminate|intros [[? _] _]; lia]).
-    split; [intros G; injection G as <-; split; [split; [lia|exact I]|reflexivity]|intros [_ ->]; reflexivity].
-  - (* rank >= 2 *) destruct ak.
-    + cbn [resolve]. destruct m; apply ND; reflexivity.
-    + destruct ds as [|n3 ds]; [|contradiction Hs].
-      cbn [resolve]. destruct m; apply ND; reflexivity.
+      * apply calc_flat_none_iff in F. split; [discriminate|tauto].
+    + apply Nat.eqb_neq in E. split; [discriminate|]. intros [G _].
+      apply in_range_length in G. contradiction.
+  - apply conv_all_none in C. split; [discriminate|]. intros [G _].
+    exfalso. apply C. eapply in_range_fits; eauto.
 Qed.
 
-Lemma resolve_accepts_iff_l ak m dims idxs : supported ak dims -> Forall int_range idxs ->
+(* every site, every integer index: accepted exactly on the in-range tuples, with the row-major cell *)
+Lemma resolve_inl_iff_l ak m dims idxs k : supported ak dims -> dims_fit dims ->
+  (resolve ak m dims (size dims) idxs = inl k <-> in_range dims idxs /\ k = row_major dims idxs).
+Proof.
+  intros Hs Hd.
+  destruct dims as [|n [|n2 ds]].
+  - cbn [resolve]. destruct ak, m; apply nd_branch_iff; exact Hd.
+  - cbn [resolve].
+    destruct idxs as [|i [|i2 is_]]; cbn [in_range]; try (split; [discriminate|tauto]).
+    rewrite row_major_1. inversion Hd as [|? ? Hn _]; subst.
+    destruct (conv (narrows ak true m) i) as [i'|] eqn:C.
+    + assert (i' = i).
+      { unfold conv in C. destruct (narrows ak true m); [apply index_to_int_spec in C; tauto|congruence]. }
+      subst i'.
+      destruct (Z.ltb_spec i 0) as [A|A], (Z.leb_spec n i) as [B|B]; cbn [orb];
+        try (split; [discriminate|intros [[? _] _]; lia]).
+      split; [intros G; injection G as <-; split; [split; [lia|exact I]|reflexivity]|intros [_ ->]; reflexivity].
+    + unfold conv in C. destruct (narrows ak true m); [|discriminate].
+      apply index_to_int_none in C. split; [discriminate|]. intros [[G _] _].
+      exfalso. apply C. unfold int_range, two31 in *. lia.
+  - destruct ak.
+    + cbn [resolve]. destruct m; apply nd_branch_iff; exact Hd.
+    + destruct ds as [|n3 ds]; [|contradiction Hs].
+      cbn [resolve]. destruct m; apply nd_branch_iff; exact Hd.
+Qed.
+
+Lemma resolve_accepts_iff_l ak m dims idxs : supported ak dims -> dims_fit dims ->
   ((exists k, resolve ak m dims (size dims) idxs = inl k) <-> in_range dims idxs) /\
   (forall k, resolve ak m dims (size dims) idxs = inl k -> k = row_major dims idxs).
 Proof.
-  intros Hs Hi.
-  assert (E : seen ak m dims idxs = idxs) by (apply map_conv_id; exact Hi).
-  split.
+  intros Hs Hd. split.
   - split.
-    + intros [k H]. apply resolve_inl_iff_l in H; [|exact Hs]. rewrite E in H. tauto.
-    + intros H. exists (row_major dims idxs). apply resolve_inl_iff_l; [exact Hs|]. rewrite E. auto.
-  - intros k H. apply resolve_inl_iff_l in H; [|exact Hs]. rewrite E in H. tauto.
-Qed.
-
-Lemma resolve_exact_iff_l ak m dims idxs k : supported ak dims -> narrows ak (rank1 dims) m = false ->
-  (resolve ak m dims (size dims) idxs = inl k <-> in_range dims idxs /\ k = row_major dims idxs).
-Proof.
-  intros Hs Hn. rewrite resolve_inl_iff_l by exact Hs. unfold seen. rewrite Hn. cbn [conv].
-  rewrite map_id. tauto.
+    + intros [k H]. apply resolve_inl_iff_l in H; tauto.
+    + intros H. exists (row_major dims idxs). apply resolve_inl_iff_l; auto.
+  - intros k H. apply resolve_inl_iff_l in H; tauto.
 Qed.
 
 (* the flat cell is inside the buffer and distinct in-range tuples get distinct cells *)
-Lemma resolve_lt_size_l ak m dims idxs k : supported ak dims ->
+Lemma resolve_lt_size_l ak m dims idxs k : supported ak dims -> dims_fit dims ->
   resolve ak m dims (size dims) idxs = inl k -> 0 <= k < size dims.
 Proof.
-  intros Hs H. apply resolve_inl_iff_l in H; [|exact Hs]. destruct H as [Hin ->].
+  intros Hs Hd H. apply resolve_inl_iff_l in H; auto. destruct H as [Hin ->].
   apply row_major_bounds. exact Hin.
 Qed.
 
-Lemma resolve_injective_l ak m dims a b k : supported ak dims -> Forall int_range a -> Forall int_range b ->
+Lemma resolve_injective_l ak m dims a b k : supported ak dims -> dims_fit dims ->
   resolve ak m dims (size dims) a = inl k -> resolve ak m dims (size dims) b = inl k -> a = b.
 Proof.
-  intros Hs Ha Hb H1 H2.
-  apply resolve_inl_iff_l in H1; [|exact Hs]. apply resolve_inl_iff_l in H2; [|exact Hs].
-  unfold seen in *. rewrite (map_conv_id _ _ Ha) in H1. rewrite (map_conv_id _ _ Hb) in H2.
+  intros Hs Hd H1 H2.
+  apply resolve_inl_iff_l in H1; auto. apply resolve_inl_iff_l in H2; auto.
   destruct H1 as [I1 ->], H2 as [I2 E]. eapply row_major_inj; eauto.
 Qed.
 
-Lemma resolve_surjective_l ak m dims k : supported ak dims -> positive_dims dims -> Forall int_range dims ->
+Lemma resolve_surjective_l ak m dims k : supported ak dims -> dims_fit dims -> positive_dims dims ->
   0 <= k < size dims ->
-  exists idxs, Forall int_range idxs /\ in_range dims idxs /\ resolve ak m dims (size dims) idxs = inl k.
+  exists idxs, in_range dims idxs /\ resolve ak m dims (size dims) idxs = inl k.
 Proof.
-  intros Hs Hp Hd Hk. destruct (unflat_spec dims Hp k Hk) as [Hin E].
-  pose proof (in_range_int _ _ Hd Hin) as Hi.
-  exists (unflat dims k). split; [exact Hi|]. split; [exact Hin|].
-  apply resolve_inl_iff_l; [exact Hs|]. unfold seen. rewrite (map_conv_id _ _ Hi). auto.
+  intros Hs Hd Hp Hk. destruct (unflat_spec dims Hp k Hk) as [Hin E].
+  exists (unflat dims k). split; [exact Hin|]. apply resolve_inl_iff_l; auto.
+Qed.
+
+(* an index that does not fit an int is rejected at every site (the former truncation) *)
+Lemma resolve_rejects_non_int_l ak m dims idxs : supported ak dims -> dims_fit dims ->
+  ~ Forall int_range idxs -> exists e, resolve ak m dims (size dims) idxs = inr e.
+Proof.
+  intros Hs Hd Hn. destruct (resolve ak m dims (size dims) idxs) as [k|e] eqn:E; [|eauto].
+  apply resolve_inl_iff_l in E; auto. destruct E as [Hin _]. exfalso. apply Hn. eapply in_range_fits; eauto.
 Qed.
 
 (* class of the error: "bounds" everywhere except the 1-D struct-member read *)
+Lemma nd_branch_err b dims stor idxs e : List.length idxs = List.length dims ->
+  match conv_all b idxs with
+  | None => inr EBounds
+  | Some idxs' =>
+      if negb (Nat.eqb (List.length dims) (List.length idxs')) then inr EOther else
+      match calc_flat dims idxs' with
+      | Some f => if f <? stor then @inl Z eclass f else inr EBounds
+      | None => inr EBounds end
+  end = inr e -> e = EBounds.
+Proof.
+  intros L. destruct (conv_all b idxs) as [l|] eqn:C; [|congruence].
+  apply conv_all_some in C. subst l. rewrite L, Nat.eqb_refl. cbn [negb].
+  destruct (calc_flat _ _); [destruct (_ <? _)|]; congruence.
+Qed.
+
 Lemma resolve_err_class_l ak m dims stor idxs e : List.length idxs = List.length dims ->
   resolve ak m dims stor idxs = inr e -> e = EBounds \/ (ak = AMember /\ m = Rd /\ rank1 dims = true).
 Proof.
   intros L.
-  assert (ND : (if negb (Nat.eqb (List.length dims) (List.length idxs)) then inr EOther else
-       match calc_flat dims (map (conv (narrows ak false m)) idxs) with
-       | Some f => if f <? stor then inl f else inr EBounds
-       | None => inr EBounds end) = inr e -> e = EBounds).
-  { rewrite L, Nat.eqb_refl. cbn [negb]. destruct (calc_flat _ _); [destruct (_ <? _)|]; congruence. }
   destruct dims as [|n [|n2 ds]].
-  - cbn [resolve]. destruct ak, m; intros H; left; apply ND; exact H.
+  - cbn [resolve]. destruct ak, m; intros H; left; eapply nd_branch_err; eauto.
   - cbn [resolve rank1]. destruct idxs as [|i [|? ?]]; try discriminate L.
-    destruct ((_ <? 0) || (n <=? _)); [|discriminate].
-    destruct ak, m; intros H; injection H as <-; auto.
+    destruct (conv _ i) as [i'|]; [destruct ((_ <? 0) || (n <=? _)); [|discriminate]|];
+      destruct ak, m; intros H; injection H as <-; auto.
   - destruct ak.
-    + cbn [resolve]. destruct m; intros H; left; apply ND; exact H.
-    + destruct ds, m; cbn [resolve]; intros H; left; try (apply ND; exact H); congruence.
+    + cbn [resolve]. destruct m; intros H; left; eapply nd_branch_err; eauto.
+    + destruct ds, m; cbn [resolve]; intros H; left; try (eapply nd_branch_err; eauto; fail); congruence.
 Qed.
 
 (* ---------- pointer arithmetic on addresses ---------- *)
-Definition two60 : Z := 1152921504606846976.
 Definition base_ok (base n : Z) : Prop := 0 <= base /\ base + 8 * n <= two64.
 
 Lemma ptr_arith_range base n e plus k e' : ptr_arith base n e plus k = Some e' -> 0 <= e' < n.
 Proof.
-  unfold ptr_arith. set (na := if plus then _ else _).
+  unfold ptr_arith. destruct ((max_ptr_offset <? k) || (k <? - max_ptr_offset)); [discriminate|].
+  set (na := if plus then _ else _).
   destruct (Z.ltb_spec na base), (Z.leb_spec (base + 8 * n) na); cbn [orb]; try discriminate.
   intros G. injection G as <-.
   split; [apply Z.div_pos; lia|apply Z.div_lt_upper_bound; lia].
@@ -133,47 +153,51 @@ Qed.
 
 Ltac Zify.zify_post_hook ::= Z.div_mod_to_equations.
 
+(* for every offset: accepted iff the target stays inside, and then the target is e +- k *)
 Lemma ptr_arith_ok_l (base n e : Z) (plus : bool) (k : Z) : base_ok base n -> 0 <= e < n -> n < two31 ->
-  - two60 <= k <= two60 ->
   let t := if plus then e + k else e - k in
   ptr_arith base n e plus k = if (0 <=? t) && (t <? n) then Some t else None.
 Proof.
-  intros [Hb1 Hb2] He Hn Hk. cbv zeta. unfold ptr_arith, wrap64, two64, two31, two60 in *.
-  destruct plus.
-  - destruct (Z.leb_spec 0 (e + k)), (Z.ltb_spec (e + k) n); cbn [andb].
-    + assert (E : (base + 8 * e + (k * 8) mod 18446744073709551616) mod 18446744073709551616 = base + 8 * (e + k)) by lia.
-      rewrite E.
-      destruct (Z.ltb_spec (base + 8 * (e + k)) base), (Z.leb_spec (base + 8 * n) (base + 8 * (e + k))); cbn [orb]; try lia.
-      f_equal. replace (base + 8 * (e + k) - base) with ((e + k) * 8) by lia. apply Z.div_mul. lia.
-    + set (na := (base + 8 * e + (k * 8) mod 18446744073709551616) mod 18446744073709551616).
-      destruct (Z.ltb_spec na base), (Z.leb_spec (base + 8 * n) na); cbn [orb]; try reflexivity.
-      exfalso. subst na. lia.
-    + set (na := (base + 8 * e + (k * 8) mod 18446744073709551616) mod 18446744073709551616).
-      destruct (Z.ltb_spec na base), (Z.leb_spec (base + 8 * n) na); cbn [orb]; try reflexivity.
-      exfalso. subst na. lia.
-    + lia.
-  - destruct (Z.leb_spec 0 (e - k)), (Z.ltb_spec (e - k) n); cbn [andb].
-    + assert (E : (base + 8 * e - (k * 8) mod 18446744073709551616) mod 18446744073709551616 = base + 8 * (e - k)) by lia.
-      rewrite E.
-      destruct (Z.ltb_spec (base + 8 * (e - k)) base), (Z.leb_spec (base + 8 * n) (base + 8 * (e - k))); cbn [orb]; try lia.
-      f_equal. replace (base + 8 * (e - k) - base) with ((e - k) * 8) by lia. apply Z.div_mul. lia.
-    + set (na := (base + 8 * e - (k * 8) mod 18446744073709551616) mod 18446744073709551616).
-      destruct (Z.ltb_spec na base), (Z.leb_spec (base + 8 * n) na); cbn [orb]; try reflexivity.
-      exfalso. subst na. lia.
-    + set (na := (base + 8 * e - (k * 8) mod 18446744073709551616) mod 18446744073709551616).
-      destruct (Z.ltb_spec na base), (Z.leb_spec (base + 8 * n) na); cbn [orb]; try reflexivity.
-      exfalso. subst na. lia.
-    + lia.
+  intros [Hb1 Hb2] He Hn. cbv zeta. unfold ptr_arith, wrap64, two64, two31, max_ptr_offset in *.
+  destruct (Z.ltb_spec 576460752303423487 k) as [G1|G1], (Z.ltb_spec k (Z.opp 576460752303423487)) as [G2|G2]; cbn [orb].
+  - lia.
+  - destruct plus.
+    + destruct (Z.leb_spec 0 (e + k)), (Z.ltb_spec (e + k) n); cbn [andb]; try reflexivity; lia.
+    + destruct (Z.leb_spec 0 (e - k)), (Z.ltb_spec (e - k) n); cbn [andb]; try reflexivity; lia.
+  - destruct plus.
+    + destruct (Z.leb_spec 0 (e + k)), (Z.ltb_spec (e + k) n); cbn [andb]; try reflexivity; lia.
+    + destruct (Z.leb_spec 0 (e - k)), (Z.ltb_spec (e - k) n); cbn [andb]; try reflexivity; lia.
+  - destruct plus.
+    + destruct (Z.leb_spec 0 (e + k)), (Z.ltb_spec (e + k) n); cbn [andb].
+      * assert (E : (base + 8 * e + (k * 8) mod 18446744073709551616) mod 18446744073709551616 = base + 8 * (e + k)) by lia.
+        rewrite E.
+        destruct (Z.ltb_spec (base + 8 * (e + k)) base), (Z.leb_spec (base + 8 * n) (base + 8 * (e + k))); cbn [orb]; try lia.
+        f_equal. replace (base + 8 * (e + k) - base) with ((e + k) * 8) by lia. apply Z.div_mul. lia.
+      * set (na := (base + 8 * e + (k * 8) mod 18446744073709551616) mod 18446744073709551616).
+        destruct (Z.ltb_spec na base), (Z.leb_spec (base + 8 * n) na); cbn [orb]; try reflexivity.
+        exfalso. subst na. lia.
+      * set (na := (base + 8 * e + (k * 8) mod 18446744073709551616) mod 18446744073709551616).
+        destruct (Z.ltb_spec na base), (Z.leb_spec (base + 8 * n) na); cbn [orb]; try reflexivity.
+        exfalso. subst na. lia.
+      * lia.
+    + destruct (Z.leb_spec 0 (e - k)), (Z.ltb_spec (e - k) n); cbn [andb].
+      * assert (E : (base + 8 * e - (k * 8) mod 18446744073709551616) mod 18446744073709551616 = base + 8 * (e - k)) by lia.
+        rewrite E.
+        destruct (Z.ltb_spec (base + 8 * (e - k)) base), (Z.leb_spec (base + 8 * n) (base + 8 * (e - k))); cbn [orb]; try lia.
+        f_equal. replace (base + 8 * (e - k) - base) with ((e - k) * 8) by lia. apply Z.div_mul. lia.
+      * set (na := (base + 8 * e - (k * 8) mod 18446744073709551616) mod 18446744073709551616).
+        destruct (Z.ltb_spec na base), (Z.leb_spec (base + 8 * n) na); cbn [orb]; try reflexivity.
+        exfalso. subst na. lia.
+      * set (na := (base + 8 * e - (k * 8) mod 18446744073709551616) mod 18446744073709551616).
+        destruct (Z.ltb_spec na base), (Z.leb_spec (base + 8 * n) na); cbn [orb]; try reflexivity.
+        exfalso. subst na. lia.
+      * lia.
 Qed.
 
-(* offset * 8 wraps modulo 2^64: p + (2^61 + 1) is accepted as p + 1 *)
-Lemma ptr_arith_wrap_l base n e : base_ok base n -> 0 <= e -> e + 1 < n ->
-  ptr_arith base n e true (2305843009213693952 + 1) = Some (e + 1).
+(* the former wrap witness: p + (2^61 + 1) is now rejected *)
+Lemma ptr_arith_huge_rejected_l base n e plus k : max_ptr_offset < k \/ k < - max_ptr_offset ->
+  ptr_arith base n e plus k = None.
 Proof.
-  unfold base_ok, ptr_arith, wrap64, two64. intros [Hb1 Hb2] He Hn.
-  assert (E : (base + 8 * e + ((2305843009213693952 + 1) * 8) mod 18446744073709551616) mod 18446744073709551616
-              = base + 8 * (e + 1)) by lia.
-  rewrite E.
-  destruct (Z.ltb_spec (base + 8 * (e + 1)) base), (Z.leb_spec (base + 8 * n) (base + 8 * (e + 1))); cbn [orb]; try lia.
-  f_equal. replace (base + 8 * (e + 1) - base) with ((e + 1) * 8) by lia. apply Z.div_mul. lia.
+  intros H. unfold ptr_arith.
+  destruct (Z.ltb_spec max_ptr_offset k), (Z.ltb_spec k (- max_ptr_offset)); cbn [orb]; try reflexivity; lia.
 Qed.
